@@ -131,6 +131,7 @@ type Specs struct {
 	Census    []*Census
 	Lemmas    []*Lemma
 	ChanMsgs  []*ChanMsg
+	Transparent []string      // dependency struct types modelled field by field
 	Immutable map[string]bool // pkg.Type.field declared immutable after construction
 	Files     []string
 }
@@ -637,6 +638,12 @@ func (sp *Specs) loadContractFile(path, pkg string, assumed bool) error {
 			}
 			tn = star + tn
 			sp.ChanMsgs = append(sp.ChanMsgs, &ChanMsg{TypeName: tn, Inv: e, Pkg: curPkg, File: path, Line: l.line})
+		case "transparent":
+			// transparent pkg.Type: a struct type of a dependency whose fields
+			// the code reads directly (modelled like the module's own structs)
+			for _, s := range strings.Fields(rest) {
+				sp.Transparent = append(sp.Transparent, s)
+			}
 		case "immutable":
 			for _, s := range strings.Fields(rest) {
 				if strings.Count(s, ".") == 1 && curPkg != "" {
